@@ -4,6 +4,7 @@ import RactorModel.Lemmas.TimersDeliver
 import RactorModel.Lemmas.TimersStops
 import RactorModel.Lemmas.TimersBurst
 import RactorModel.Lemmas.TimersExact
+import RactorModel.Lemmas.TimersReasons
 
 /-!
 # C12 — timers fire once, never early, and die with their target
@@ -45,7 +46,8 @@ after it, exit reasons have a source, handled messages were sent. -/
 theorem ok_all (ops : List Op) : ok (steps init ops) = true := by
   unfold ok
   rw [ok2_of_inv (Inv.init.steps ops) (DInv.init.steps Inv.init ops),
-    sentBeforeClose_of (all3_steps Inv.init DInv.init EInv.init ops)]; rfl
+    sentBeforeClose_of (all3_steps Inv.init DInv.init EInv.init ops),
+    reasonSrcOk_of (RT.init.steps ops)]; rfl
 
 /-- At every quiescent point of a quiescent run both predicates hold. -/
 theorem ok_quiescent (ms : List MOp) : ok (mrun init ms) = true ∧ okPrompt (mrun init ms) = true := by
@@ -298,6 +300,19 @@ theorem exit_reason (ops : List Op) (r : Reason) (te : Nat)
     (r = .manual → (steps init ops).target.manualStop = true) :=
   exit_reason' (Inv.init.steps ops) r te he
 
+/-- The other two exit reasons have a source as well, for every schedule: `"Drained"` only after `drain()`
+was called on the target, `<failed>` only after a message on which the handler fails was accepted;
+a stop request never carries either reason, and a target in `post_stop` is never there for a failure
+(a failing handler skips `post_stop`). -/
+theorem exit_reason_sources (ops : List Op) :
+    let T := (steps init ops).target
+    (∀ te, T.exit = some (.drained, te) → T.draining = true) ∧
+    (∀ te, T.exit = some (.failed, te) → T.manualFail = true) ∧
+    (∀ ts, T.stopping ≠ some (.failed, ts)) ∧
+    (∀ r, T.stopReq = some r → r = .manual ∨ ∃ ms, r = .exitAfter ms) :=
+  let h := RT.init.steps (s := init) ops
+  ⟨h.drained_src, h.failed_src, h.ps_nofail, h.req⟩
+
 /-- The documented reason string (compared verbatim with what the real supervisor receives). -/
 theorem reason_string (p : Nat) : (Reason.exitAfter p).render = "Exit after " ++ toString p ++ "ms" := rfl
 
@@ -484,6 +499,7 @@ end C12
 #print axioms C12.handle_reports_send
 #print axioms C12.exit_reason
 #print axioms C12.reason_string
+#print axioms C12.exit_reason_sources
 #print axioms C12.beyond_horizon
 #print axioms C12.zero_period_oneshot
 #print axioms C12.zero_interval_panics
